@@ -9,10 +9,10 @@ Require Import MV.Common.Interleave MV.C16.Model MV.C16.Conc.
 Open Scope N_scope.
 
 Definition region (p : pc) : bool :=
-  match p with K5 _ | K6 _ _ | K7 _ _ | K8 _ _ _ _ _ _ | K9 _ _ _ _ | K10 _ => true | _ => false end.
+  match p with K5 _ | K6 _ _ | K7 _ _ | K8 _ _ _ _ _ _ _ | K9 _ _ _ _ _ | K10 _ _ => true | _ => false end.
 
 Definition drain_side (p : pc) : option bool :=
-  match p with K7 _ up => Some up | K8 sd _ _ _ _ _ => Some sd | K9 sd _ _ _ => Some sd | _ => None end.
+  match p with K7 _ up => Some up | K8 sd _ _ _ _ _ _ => Some sd | K9 sd _ _ _ _ => Some sd | _ => None end.
 
 Definition Inv2 (c : config) : Prop :=
   (forall t l, nth_error (snd c) t = Some l -> me l = N.of_nat t) /\
@@ -25,9 +25,6 @@ Proof. destruct td as [|[v c|k|] r]; cbn; auto. Qed.
 
 Lemma set_side_frame s sd r : lock (set_side s sd r) = lock s /\ usep (set_side s sd r) = usep s.
 Proof. destruct sd; cbn; auto. Qed.
-
-Lemma add_infl_frame s sd up : lock (add_infl s sd up) = lock s /\ usep (add_infl s sd up) = usep s.
-Proof. cbn; auto. Qed.
 
 (* every step is one of: frame (lock and use_primary untouched, the thread does not enter the
    critical region and keeps its drain side), acquire, swap, release *)
@@ -45,13 +42,14 @@ Proof.
   destruct p.
   - inversion E; subst s' l'. destruct (enter_frame m td rs) as (A & B & C). split; [exact A|].
     left. rewrite B, C. repeat split; auto; discriminate.
-  - inversion E; subst s' l'. split; [reflexivity|]. left. cbn. repeat split; auto; discriminate.
-  - inversion E; subst s' l'. split; [reflexivity|]. left. destruct (set_side_frame s sd {| values := values (side s sd); count := count (side s sd) + 1 |}) as [A B].
+  - inversion E; subst s' l'. split; [reflexivity|]. left. match goal with |- context [set_side s ?a ?b] => destruct (set_side_frame s a b) as [A B] end.
     rewrite A, B. cbn. repeat split; auto; discriminate.
-  - destruct (store_step (side s sd) idx v c) as [r' p]. inversion E; subst s' l'.
+  - inversion E; subst s' l'. split; [reflexivity|]. left. match goal with |- context [set_side s ?a ?b] => destruct (set_side_frame s a b) as [A B] end.
+    rewrite A, B. cbn. repeat split; auto; discriminate.
+  - destruct (store_step (res (side s sd)) idx v c) as [r' p]. inversion E; subst s' l'.
     unfold finish. cbn [me todo results]. destruct (enter_frame m td (MPush p :: rs)) as (A & B & C).
     split; [exact A|]. left. rewrite B, C.
-    destruct (set_side_frame s sd r') as [A1 B1]. cbn [add_infl lock usep]. rewrite A1, B1.
+    match goal with |- context [set_side s ?a ?b] => destruct (set_side_frame s a b) as [A1 B1] end. rewrite A1, B1.
     repeat split; auto; discriminate.
   - destruct (lock s) eqn:L; inversion E; subst s' l'; (split; [reflexivity|]).
     + left. repeat split; auto.
@@ -61,22 +59,19 @@ Proof.
     exists k, up. auto.
   - inversion E; subst s' l'. split; [reflexivity|]. left. cbn [goto pcl me].
     split; [reflexivity|]. split; [reflexivity|]. split; [auto|].
-    intros sd H. left.
-    destruct ((match k with Some k' => N.min k' (if capacity (side s up) <? count (side s up) then capacity (side s up) else count (side s up))
-                          | None => if capacity (side s up) <? count (side s up) then capacity (side s up) else count (side s up) end) =? 0);
-      cbn in H; inversion H; reflexivity.
+    intros sd H. left. match type of H with context [if ?b then _ else _] => destruct b end; cbn in H; inversion H; reflexivity.
   - inversion E; subst s' l'. split; [reflexivity|]. left. cbn [goto pcl me].
     split; [reflexivity|]. split; [reflexivity|]. split; [auto|].
     intros sd0 H. left. destruct (i + 1 <? take); cbn in H; inversion H; reflexivity.
   - inversion E; subst s' l'. split; [reflexivity|]. left.
-    destruct (set_side_frame s sd {| values := values (side s sd); count := 0 |}) as [A B]. rewrite A, B.
+    match goal with |- context [set_side s ?a ?b] => destruct (set_side_frame s a b) as [A B] end. rewrite A, B.
     cbn. repeat split; auto; discriminate.
   - inversion E; subst s' l'. unfold finish. cbn [me todo results].
     destruct (enter_frame m td (MConsume d :: rs)) as (A & B & C). split; [exact A|].
     right; right; right. cbn. auto.
   - inversion E; subst s' l'. split; [reflexivity|]. left. cbn. repeat split; auto; discriminate.
   - inversion E; subst s' l'. unfold finish. cbn [me todo results].
-    destruct (enter_frame m td (MEmpty (count (side s up) =? 0) :: rs)) as (A & B & C). split; [exact A|].
+    destruct (enter_frame m td (MEmpty (count (res (side s up)) =? 0) :: rs)) as (A & B & C). split; [exact A|].
     left. rewrite B, C. repeat split; auto; discriminate.
   - discriminate.
 Qed.
